@@ -116,7 +116,8 @@ class Check:
                         bad.append("extract/%s: %s" % (fn, m.group(0)))
         if bad:
             self.broken.append("forbidden tokens: " + "; ".join(bad[:5]))
-        src = "From Verif Require Import %s.\n" % module
+        mods = module if isinstance(module, (list, tuple)) else [module]
+        src = "".join("From Verif Require Import %s.\n" % m for m in mods)
         for t in theorems:
             src += 'Print Assumptions %s.\n' % t
         path = os.path.join(self.work, "Audit_%s.v" % self.pid)
@@ -171,7 +172,8 @@ class Check:
     # ---------------------------------------------------------------- step 5
     def build_model_cli(self, timeout=1200):
         with Lock("coq"):
-            rc, out, _ = run("coqc -Q ../coq Verif Extract.v && ocamlfind ocamlopt -package zarith -linkpkg -O2 "
+            rc, out, _ = run("ulimit -s unlimited 2>/dev/null; coqc -Q ../coq Verif Extract.v && "
+                             "ocamlfind ocamlopt -package zarith -linkpkg -O2 "
                              "-w -a model.mli model.ml main.ml -o model_cli", cwd=EXTRACT, timeout=timeout)
         if rc != 0:
             self.broken.append("extraction / model_cli build failed: " + tail(out, 8))
@@ -256,6 +258,18 @@ class Check:
             print("VIOLATION property=%s replay=%s%s" % (self.pid, path, suf))
         print("%s %s: %s in %.1fs" % (self.pid, self.tier, "FAIL" if self.violations else "ok", time.time() - self.t0))
         sys.exit(1 if self.violations else 0)
+
+
+def theorems_of(*relpaths):
+    """names of the Theorem/Corollary statements of Props files (comments stripped)"""
+    names = []
+    for rp in relpaths:
+        path = os.path.join(COQ, rp)
+        if not os.path.exists(path):
+            continue
+        txt = strip_coq_comments(open(path).read())
+        names += re.findall(r"^\s*(?:Theorem|Corollary)\s+([A-Za-z_][\w']*)", txt, flags=re.M)
+    return names
 
 
 def strip_coq_comments(txt):
